@@ -1861,9 +1861,10 @@ class InterGitTrees(_mod_tree.InterTree):
         """
         paths = set(paths)
         ret = {}
-        changes = self._iter_git_changes(specific_files=paths, include_trees=False)[0]
-        for _change_type, old, new in changes:
-            if old[0] is None:
+        changes = self._iter_git_changes(specific_files=paths, include_trees=True)[0]
+        for change_type, old, new in changes:
+            if old[0] is None or change_type == "copy":
+                # a copy is not where the path went: its source is still there
                 continue
             oldpath = decode_git_path(old[0])
             if oldpath in paths:
@@ -1871,7 +1872,7 @@ class InterGitTrees(_mod_tree.InterTree):
         for path in paths:
             if path not in ret:
                 if self.source.has_filename(path):
-                    if self.target.has_filename(path):
+                    if self.target.is_versioned(path):
                         ret[path] = path
                     else:
                         ret[path] = None
@@ -1894,12 +1895,14 @@ class InterGitTrees(_mod_tree.InterTree):
         """
         paths = set(paths)
         ret = {}
-        changes = self._iter_git_changes(specific_files=paths, include_trees=False)[0]
+        changes = self._iter_git_changes(specific_files=paths, include_trees=True)[0]
         for change in changes:
             old = change.old
             new = change.new
 
-            if new is None or new.path is None:
+            if new is None or new.path is None or change.type == "copy":
+                # a copy is not where the path came from: its source has its
+                # own entry (or is unchanged)
                 continue
             newpath = decode_git_path(new.path)
             if newpath in paths:
@@ -1907,7 +1910,7 @@ class InterGitTrees(_mod_tree.InterTree):
         for path in paths:
             if path not in ret:
                 if self.target.has_filename(path):
-                    if self.source.has_filename(path):
+                    if self.source.is_versioned(path):
                         ret[path] = path
                     else:
                         ret[path] = None
